@@ -638,7 +638,9 @@ def bounds_sound(F, R, tier="quick"):
     exprs = [("x+y", bop("Add", x, y)), ("2x-y", bop("Sub", bop("Mul", num(2), x), y)), ("-0.5x+y", bop("Add", bop("Mul", num(-0.5), x), y)), ("x", x), ("y/-2", bop("Div", y, num(-2))),
              ("abs(x)", ab(x)), ("abs(x-y)", ab(bop("Sub", x, y))), ("max(x,y)", mx(x, y)), ("min(x,2y)", mn(x, bop("Mul", num(2), y))), ("-(x+3)", neg(bop("Add", x, num(3)))),
              ("abs(x)+y", bop("Add", ab(x), y)), ("-2*max(x,y)", bop("Mul", num(-2), mx(x, y))), ("3-min(x,y)", bop("Sub", num(3), mn(x, y))), ("max(abs(x),y)", mx(ab(x), y)), ("x-(2-y)", bop("Sub", x, bop("Sub", num(2), y))),
-             ("(x+y)/2", bop("Div", bop("Add", x, y), num(2))), ("-x", neg(x)), ("abs(y)-x", bop("Sub", ab(y), x))]
+             ("(x+y)/2", bop("Div", bop("Add", x, y), num(2))), ("-x", neg(x)), ("abs(y)-x", bop("Sub", ab(y), x)),
+             # quotients and products by a constant below and above a piecewise form: the reverse rules undo them
+             ("max(x/4,y)", mx(bop("Div", x, num(4)), y)), ("abs(x)/4", bop("Div", ab(x), num(4))), ("min(x/-3,y)", mn(bop("Div", x, num(-3)), y)), ("abs(3x-y)", ab(bop("Sub", bop("Mul", num(3), x), y))), ("max(x,y)/0.5", bop("Div", mx(x, y), num(0.5)))]
     rels = [("LessOrEqual", lambda a, b: a <= b), ("GreaterOrEqual", lambda a, b: a >= b), ("Equal", lambda a, b: a == b)]
     rhss = [1.0, -2.0, 0.0, 2.5]
     cons = []
